@@ -72,7 +72,7 @@ def llvm_tools():
 def build(work):
     # (build scripts and proc macros are instrumented too: keep their profiles out of the source tree)
     os.makedirs(os.path.join(work, "prof", "build"), exist_ok=True)
-    env = dict(os.environ, CARGO_TARGET_DIR=os.path.join(work, "target"), RUSTFLAGS="-C instrument-coverage", CARGO_NET_OFFLINE="true",
+    env = dict(os.environ, CARGO_TARGET_DIR=os.path.join(work, "target"), RUSTFLAGS="-C instrument-coverage --cfg goml_verif", CARGO_NET_OFFLINE="true",
                LLVM_PROFILE_FILE=os.path.join(work, "prof", "build", "build-%p-%m.profraw"))
     p = sh(["cargo", "build", "--release", "--offline"], cwd=os.path.join(VERIF, "harness"), env=env)
     if p.returncode != 0:
